@@ -18,12 +18,15 @@ Genuine deviations found on the unchanged tree (KNOWN_FINDINGS.jsonl, proposed/f
     (a < e, b < f, a # b, e and f otherwise independent) -> also EventSet::is_conflict_free on sets that are not causally
     closed;  * Configuration::get_minimally_reproducible_events always returns the empty set.
 
-Mutations tried (tools/mutbuild.sh, quick tier), all caught with exit 1:
-  * History::Iterator::increment: the causes of a visited event are not pushed to the frontier when the event has
-    already a visited sibling (closure misses grand-parents)                                  -> VIOLATION (cl, lc, h, ...)
-  * EventSet::is_maximal: compares sizes instead of sets                                      -> VIOLATION (ismx)
-  * EventSet::is_conflict_free: the pair loop skips the last event                            -> VIOLATION (cf, cfg, ctor)
-  * maximal_subsets_iterator: backtracking restarts from latest_event_ref + 2 (skips subsets) -> VIOLATION (anti*)
+Mutations tried (tools/mutbuild.sh worktree, mutated objects relinked into a copy of the build, quick tier), all caught (exit 1):
+  * History::Iterator::increment: causes pushed to the frontier only while <= 2 events are visited (closure misses
+    grand-parents)                                                                   -> VIOLATION (cl, lc, h, cfg, ...)
+  * EventSet::is_maximal: `size() <= get_largest_maximal_subset().size() + 1` (off by one)     -> VIOLATION (ismx)
+  * EventSet::is_conflict_free: sets of two events never examined                              -> VIOLATION (cf, cfg, ch)
+  * maximal_subsets_iterator::continue_traversal...: one candidate skipped when backtracking to the first level
+                                                                                               -> VIOLATION (anti2)
+With proposed/fix-C44-conflicts-inherited.diff and fix-C44-minimally-reproducible.diff applied the check exits 0 with no
+KNOWN-FINDING line (the fixes are validated by the same oracle).
 """
 import json, os
 import vlib
@@ -31,7 +34,21 @@ import mc_common as MC
 
 LEVEL = "model_checking"
 DRIVERS = {"udpor_unit_driver": MC.DRIVERS["udpor_unit_driver"]}
-META = None
+META = {"text": "TLC enumerates every valid unfolding (up to the order of discovery) of a small scope over alphabets of real "
+                "transitions, whose dependency is the real depends() passed as data, samples unfoldings of up to 15 events, and "
+                "prints from the set-theoretic definitions of Unfolding.tla the expected answer of every examined method for every "
+                "event, every subset (all 2^n up to 6 events) and sampled pairs of subsets; the real UnfoldingEvent/EventSet/History/"
+                "Configuration/Unfolding/maximal_subsets_iterator objects (and the xbt subset/powerset/product enumerators) are "
+                "driven through the same cases and must answer the same (multiset equality for iterators); non-unique answers "
+                "(topological orders) are validated by TLC; lemmas of the definitions are model-checked on each generated unfolding.",
+        "note": "Trusted: TLC, the driver's printing of the methods' answers. Complete only within the stated sizes (quick: all "
+                "unfoldings of <= 4 events over a 4-label alphabet plus a VERIF_SEED slice of the 5-event ones, a second alphabet "
+                "to 3-4 events, samples to 12-15 events; thorough: <= 5 events (4-label alphabet, plus a slice of the 6-event ones), <= 4 events plus a slice of 5 for the three other alphabets). Enabledness of "
+                "transitions is not modelled; Comb/k-partial alternatives and the U/G bookkeeping are not examined. Three "
+                "deviations are recorded as known findings (conflicts_with and is_conflict_free miss purely inherited conflicts; "
+                "get_minimally_reproducible_events returns the empty set).",
+        "technique": "TLC behaviour generation (UnfoldingGen/IterGen, BFS + -simulate) replayed into the real udpor classes by "
+                     "udpor_unit_driver + TLC validation of topological orders (UnfoldingTopo) + model-checked lemmas"}
 
 
 def _classify(case, path, key, exp, got):
@@ -191,34 +208,44 @@ def run(ctx):
     else:
         plan.append(("locks2", dict(maxn=6, slicefrom=6, slices=6, slice=ctx.seed % 6), dict(maxn=15, nsub=16), 60))
         for a in names[1:]:
-            plan.append((a, dict(maxn=5, slicefrom=6, slices=1, slice=0), dict(maxn=15, nsub=16), 40))
+            plan.append((a, dict(maxn=5, slicefrom=5, slices=3, slice=ctx.seed % 3), dict(maxn=15, nsub=16), 40))
     batches = []
     ctx.cov["alphabets"] = {}
+    jobs = []
     for alpha, exh, smp, nsim in plan:
         labels = MC.ALPHABETS[alpha]
         dep = MC.real_label_dependency(ctx, labels, "dep_" + alpha)
         ctx.cov["alphabets"][alpha] = {"labels": dep["labstr"], "actors": dep["labactor"], "real_dependency": dep["labdep"]}
         base = {"labdep": dep["labdep"], "labactor": dep["labactor"], "npairs": 10, "fmask": 0b0101101011010110 ^ (ctx.seed & 0xffff),
                 "fullupto": 6, "nsub": 8, "emitfrom": 1, "lemmaupto": 4 if quick else 5, "slicefrom": 99, "slices": 1, "slice": 0}
-        p1 = dict(base, mode="exh", **exh)
-        r1, cases1 = MC.tlc_unfoldings(ctx, p1, "exh_" + alpha, timeout=900 if quick else 3000)
-        ctx.add_tlc(r1)
-        ctx.cov["alphabets"][alpha]["exhaustive"] = {
-            "max_events": p1["maxn"], "unfoldings": r1.distinct, "sheets": len(cases1), "wall_s": round(r1.wall, 1),
-            "complete_up_to": p1["slicefrom"] - 1 if p1["slices"] > 1 else p1["maxn"],
-            "slice_of_largest_size": "%d/%d" % (p1["slice"] + 1, p1["slices"])}
-        p2 = dict(base, mode="sample", emitfrom=6, **smp)
-        r2, cases2 = MC.tlc_unfoldings(ctx, p2, "smp_" + alpha, simulate="num=%d" % nsim, seed=ctx.seed + 1,
-                                       timeout=900 if quick else 3000, workers=1 if quick else 4, lemmas=False)
-        ctx.add_tlc(r2)
-        ctx.cov["alphabets"][alpha]["sampled"] = {"behaviours": nsim, "max_events": p2["maxn"], "sheets": len(cases2)}
-        if not cases1:
-            raise vlib.InfraError("UnfoldingGen printed no case for alphabet " + alpha)
-        for tag, cases in (("exh_" + alpha, cases1), ("smp_" + alpha, cases2)):
-            for j in range(0, len(cases), 400):
-                recs = _check_cases(ctx, alpha, labels, cases[j:j + 400], "%s_%d" % (tag, j))
-                batches.append((cases[j:j + 400], recs))
-        for c in cases1[:1] + cases2[-1:]:
+        jobs.append((alpha, "exh", dict(base, mode="exh", **exh), nsim))
+        jobs.append((alpha, "smp", dict(base, mode="sample", emitfrom=6, **smp), nsim))
+
+    def gen(job):       # the TLC runs of the different alphabets are independent: run them side by side
+        alpha, kind, p, nsim = job
+        if kind == "exh":
+            return MC.tlc_unfoldings(ctx, p, "exh_" + alpha, timeout=900 if quick else 3000, workers=4 if quick else 8)
+        return MC.tlc_unfoldings(ctx, p, "smp_" + alpha, simulate="num=%d" % nsim, seed=ctx.seed + 1,
+                                 timeout=900 if quick else 3000, workers=1 if quick else 4, lemmas=False)
+    results = vlib.parallel_map(gen, jobs, nproc=4 if quick else 3)
+    for (alpha, kind, p, nsim), (r, cases) in zip(jobs, results):
+        labels = MC.ALPHABETS[alpha]
+        ctx.add_tlc(r)
+        if kind == "exh":
+            ctx.cov["alphabets"][alpha]["exhaustive"] = {
+                "max_events": p["maxn"], "unfoldings": r.distinct, "sheets": len(cases), "wall_s": round(r.wall, 1),
+                "complete_up_to": p["slicefrom"] - 1 if p["slices"] > 1 else p["maxn"],
+                "slice_of_largest_size": "%d/%d" % (p["slice"] + 1, p["slices"])}
+            if not cases:
+                raise vlib.InfraError("UnfoldingGen printed no case for alphabet " + alpha)
+        else:
+            ctx.cov["alphabets"][alpha]["sampled"] = {"behaviours": nsim, "max_events": p["maxn"], "sheets": len(cases),
+                                                      "wall_s": round(r.wall, 1)}
+        tag = "%s_%s" % (kind, alpha)
+        for j in range(0, len(cases), 400):
+            recs = _check_cases(ctx, alpha, labels, cases[j:j + 400], "%s_%d" % (tag, j))
+            batches.append((cases[j:j + 400], recs))
+        for c in (cases[:1] if kind == "exh" else cases[-1:]):
             ctx.sample({"alphabet": alpha, "n": c["n"], "events": [(e["l"], sorted(e["c"])) for e in c["events"]],
                         "conflicts": [e["cf"] for e in c["ev"]], "subsets_examined": len(c["sub"])}, limit=4)
     ctx.cov["exhaustive"] = True
